@@ -1756,7 +1756,10 @@ def run(check):
                   'valid and mutated documents (wrapper key renamed, doubled, emptied, replaced). Direct oracle: every value '
                   'through a loopback client and ServerBase for six protocols x polymorphic on/off (objects received by user '
                   'code and by the client, type markers, member order and member set of both documents), and requests whose '
-                  'marker names an unknown / unrelated class; declared types customised twice (P.customize().customize(), '
+                  'marker names an unknown / unrelated class, and requests rewritten as a peer may send them (markers unprefixed, '
+                  'resolved through a default namespace); a fixed chain K0..K5 with a slot declared at every ancestor and instances '
+                  'of every depth at every slot (generated chains reach depth 6); the flattened type info of a subclass computed '
+                  'before its bases\' (first use), then polymorphic=False projections; declared types customised twice (P.customize().customize(), '
                   'Array(P.customize()), Array(Mandatory(P))) holding subclass instances; growing hierarchies: a tree is used '
                   'through all six protocols, further subclasses are then defined below a root, a middle class and a leaf '
                   '(no customize()/Array() in between), and instances of the new classes are sent where the old bases are '
